@@ -187,6 +187,7 @@ def run(ctx):
   pairing(ctx)
   total_order(ctx, 'PAIR/total-then-notes')
   single_explicit(ctx)
+  change_detection_exact(ctx)
   # "stretching the sequence and its tempo together gives the same steps": the stretch has to reach every time-bearing container
   from rules import C13 as _c13
   _c13.fields_named(ctx, cov.time_paths(ctx.S), names=('stretch_note_sequence',), rule='STRETCH/fields-named')
@@ -610,6 +611,39 @@ def single_explicit(ctx):
     if f not in seen:
       ctx.ob('FRAME/single-at-zero', fi, fi.node, False, 'quantize_note_sequence no longer reduces %s to its first stored element' % f, construct='%s[0].time = 0; del %s[1:]' % (f, f),
              unknown='no `del <copy>.%s[1:]` found: how the list is reduced to one element is not recognised' % f)
+
+
+def change_detection_exact(ctx, rule='ESC/change-is-exact'):
+  """"a sequence with a tempo / time signature change is rejected": any difference is a change.  A test that lets nearly equal values
+  pass (math.isclose, numpy.isclose / allclose, |a - b| against a tolerance) accepts a sequence with two different tempos and
+  quantizes it at whichever is stored first."""
+  fi = ctx.func(SL + ':quantize_note_sequence')
+  fn = fi.node
+  n = 0
+  for r in ast.walk(fn):
+    if not (isinstance(r, ast.Raise) and r.exc is not None):
+      continue
+    cls = (dotted(r.exc.func) if isinstance(r.exc, ast.Call) else dotted(r.exc)) or ''
+    if cls.split('.')[-1] not in ('MultipleTempoError', 'MultipleTimeSignatureError'):
+      continue
+    n += 1
+    conds = [U.expand_locals(fn, t, at=r) for t, _p in U.path_conditions(fn, r)]
+    loose = []
+    for t in conds:
+      for c in ast.walk(t):
+        if isinstance(c, ast.Call) and (dotted(c.func) or '').split('.')[-1] in ('isclose', 'allclose', 'approx', 'assert_allclose'):
+          loose.append(norm_text(c))
+        if isinstance(c, ast.Compare) and len(c.ops) == 1 and isinstance(c.ops[0], (ast.Lt, ast.LtE, ast.Gt, ast.GtE)):
+          for side in (c.left, c.comparators[0]):
+            if isinstance(side, ast.Call) and dotted(side.func) in ('abs', 'math.fabs', 'np.abs', 'numpy.abs') and side.args and isinstance(side.args[0], ast.BinOp) and isinstance(side.args[0].op, ast.Sub):
+              loose.append(norm_text(c))
+    cons = '%s is raised for any difference' % cls.split('.')[-1]
+    ctx.ob(rule, fi, r, not loose, 'the change test compares exactly' if not loose else
+           'the test on the way to `raise %s` lets nearly equal values pass (%s): two events that differ by less than the tolerance are a change all the same, and the sequence is quantized '
+           'with whichever of them is stored first instead of being rejected' % (cls.split('.')[-1], loose[0][:70]), construct=cons, definite=True)
+  if n == 0:
+    why = 'cannot classify: no raise of MultipleTempoError / MultipleTimeSignatureError in quantize_note_sequence itself'
+    ctx.ob(rule, fi, fn, False, why, construct='a change is raised for any difference', unknown=why)
 
 
 def escapes(ctx, rel, ab):
